@@ -25,9 +25,9 @@ def harnesses(ctx):
                 kernel="C12-c reference re-stamping: system references untouched, others point into the owning dictionary",
                 stubs=["alloc::fmt::format -> empty string"], timeout_s=900 if q else 2400, mem_gb=8 if q else 16),
         Harness("c12_grammar_merge_contiguous", "dic__grammar", ["Grammar::merge"],
-                "merged grammar of 3 POS (2 system + 1 registered by a plugin / earlier dictionary), user table of 2 POS; all five one-letter tags symbolic, every equality pattern between the user table and the earlier POS",
+                "merged grammar of 3 POS (2 system + 1 registered by a plugin / earlier dictionary; tags a, b, c), user table of 2 POS with symbolic one-letter tags in a..e: every equality pattern between the user table and the earlier POS",
                 kernel="C12-c the offset recorded at merge time is where the user dictionary's POS table lands, entry by entry - also when it repeats POS that already exist",
-                timeout_s=900, mem_gb=12),
+                timeout_s=900, mem_gb=24),
     ] + [
         Harness("c12_pos_rebase_d%d" % d, "dic__lexicon_set",
                 ["LexiconSet::get_word_info_subset", "Lexicon::get_word_info", "WordInfos::get_word_info", "WordInfos::parse_word_info",
